@@ -37,8 +37,13 @@ EXPLANATION = (
     'changed to a non-custom buildtype and the command line puts buildtype first; R7 the prefix-dependent directory defaults '
     '(hard reset, reset on prefix change, initial default) follow the reference tables; R9 a value taken out of pending_options is applied through set_option unless it is the None sentinel of the pop; R8 also: storing into an option object always switches its yielding off; R8 an option is linked to a parent (and so may report the parent\'s value) only under an exact '
     'class identity test, because the option classes subclass one another, and .yielding is only ever False or "parent linked". '
+    'R3 reads a call of a pure accessor of the option object (closed-world unique public method whose body only branches and returns field reads) as its body; a lookup result computed by any other call is undecided; '
+    'R5 knows the truth value of an Optional[int] bound ("not None and not 0"): a range test guarded by the truth of the bound skips a bound of exactly 0 and is a violation; '
+    'R9 judges every value taken out of pending_options on its own (several pops in one function); '
+    'R10 Environment.mfilestr2key returns the key evolved to the machine of the file on every path for the BUILD machine (the native file of a cross build) and the key as parsed on every other path '
+    '(undecided when a caller re-keys the result itself). '
     'Does NOT decide which value wins for concrete option sets (run-time), the directory values for concrete prefixes, '
-    'per-machine canonicalisation for concrete cross files, nor the behaviour of set_user_option for unknown/pending options. '
+    'per-machine canonicalisation for concrete cross files beyond R10 (which machine a file is loaded for, the build.* copy loop and the build-key filter of Environment.__init__), nor the behaviour of set_user_option for unknown/pending options. '
     'Observed on the tree and NOT decided (no exact structural clause, or documented behaviour): buildtype listed after debug/optimization in '
     'project default_options or a machine file overwrites the explicit values (only the command line is reordered); a yielding option reports a '
     'same-class parent value outside its own choices/range (documented: get_option returns the superproject value); sanitize_prefix strips one trailing '
